@@ -342,8 +342,10 @@ where
                     count
                 };
 
-                // We can flush at most u16::MAX pages at once.
-                let count = u16::try_from(count).unwrap_or(u16::MAX);
+                // `invlpgb` takes the number of *additional* pages to flush after the first one
+                // (the range is not empty, so `count` is at least 1). We can flush at most
+                // u16::MAX additional pages at once.
+                let count = u16::try_from(count - 1).unwrap_or(u16::MAX);
 
                 // Cap the count by the maximum supported count of the processor.
                 let count = cmp::min(count, self.invlpgb.invlpgb_count_max);
@@ -359,11 +361,9 @@ where
                     );
                 }
 
-                // Even if the count is zero, one page is still flushed and so
-                // we need to advance by at least one.
-                let inc_count = cmp::max(count, 1);
-                pages.start =
-                    Page::forward_checked_impl(pages.start, usize::from(inc_count)).unwrap();
+                // One page plus `count` additional pages have been flushed.
+                let inc_count = usize::from(count) + 1;
+                pages.start = Page::forward_checked_impl(pages.start, inc_count).unwrap();
             }
         } else {
             unsafe {
